@@ -664,4 +664,43 @@ example : [4, 7, 9].Nodup ∧ tableDispatch (buildBy false [4, 7, 9] 0 Table.emp
 
 end ClauseTable
 
+/-! ## switch labels are compared by the language's `==` (fix C02-switch-loose-compare)
+
+`SwitchStatement.isMatch` compared `AsInt` with `AsInt`, else `AsString` with `AsString`:
+`switch (true) { case 1: }` did not match, `switch (1.5) { case 1: }` did. It is now
+`data.LooseCompare v1 v2 == 0` (what `BinaryEq` computes); `Spec.Ctl.looseEq`, the comparison both the
+reference semantics and the model use for a label, states that rule on the value layer of the core. -/
+section LabelCompare
+
+/-- wherever the core's `==` operator is defined, a switch label matches iff `==` says true -/
+theorem C02_switch_label_agrees_with_eq (a b : Val) (r : Bool)
+    (h : binop .eq a b = some (.bool r)) : looseEq a b = r := by
+  cases a <;> cases b <;> simp [binop] at h <;> simp [looseEq, Val.truthy, ← h]
+
+/-- the comparison is symmetric: condition and label can be exchanged -/
+theorem C02_switch_label_symmetric (a b : Val) : looseEq a b = looseEq b a := by
+  cases a <;> cases b <;> simp [looseEq, Val.truthy, Bool.beq_comm]
+
+/-- a bool condition (or label) compares both sides as booleans; `null` is `""` against a string and
+`false` against everything else -/
+theorem C02_switch_label_bool_null (b : Bool) (v : Val) (s : String) :
+    looseEq (.bool b) v = (b == v.truthy) ∧ looseEq v (.bool b) = (v.truthy == b) ∧
+    looseEq .null (.str s) = (s == "") ∧ looseEq .null (.int 0) = true ∧ looseEq .null (.int 1) = false := by
+  refine ⟨by cases v <;> simp [looseEq, Val.truthy], ?_, by simp [looseEq], by decide, by decide⟩
+  cases v <;> simp [looseEq, Val.truthy, Bool.beq_comm]
+
+/-- the two repaired findings on the value layer, and what the old `isMatch` (ints by value, else
+texts) said: `true` against `1`, `2`, `'a'` matches, `false` against `0`, `''`, `null` matches; equal
+kinds are unchanged -/
+theorem C02_switch_label_loose_witness :
+    looseEq (.bool true) (.int 1) = true ∧ looseEq (.int 2) (.bool true) = true ∧
+    looseEq (.bool true) (.str "a") = true ∧ looseEq (.bool false) (.int 0) = true ∧
+    looseEq (.bool false) (.str "") = true ∧ looseEq (.bool false) .null = true ∧
+    looseEq (.bool true) (.int 0) = false ∧ looseEq (.int 1) (.str "1") = true ∧
+    looseEq (.int 1) (.str "a") = false ∧ looseEq (.int 1) (.int 2) = false ∧
+    looseEq (.list [1]) (.list [1]) = false ∧ looseEq (.list []) .null = true := by
+  decide
+
+end LabelCompare
+
 end C02
